@@ -90,12 +90,13 @@ type ContractSet struct {
 	axioms []*Axiom
 	lemmas []*Lemma
 	files  []string
+	binds  map[string]string // external function (ssa name) -> pkg.specfunc
 	errors []string
 	assumeCount int
 }
 
 var clauseKeywords = map[string]bool{"requires": true, "ensures": true, "loop": true, "safe": true, "pure": true, "trusted": true, "at": true, "var": true, "let": true, "assert": true, "results": true}
-var topKeywords = map[string]bool{"func": true, "spec": true, "axiom": true, "lemma": true}
+var topKeywords = map[string]bool{"func": true, "spec": true, "axiom": true, "lemma": true, "bind": true}
 
 var propTagRe = regexp.MustCompile(`\[(C[0-9]+(?:\s*,\s*C[0-9]+)*)\]`)
 
@@ -112,7 +113,7 @@ func parseProps(s string) ([]string, string) {
 }
 
 func loadContracts(repo string) (*ContractSet, error) {
-	cs := &ContractSet{byKey: map[string]*FuncContract{}, specs: map[string]*SpecFunc{}}
+	cs := &ContractSet{byKey: map[string]*FuncContract{}, specs: map[string]*SpecFunc{}, binds: map[string]string{}}
 	var files []string
 	filepath.Walk(repo, func(path string, info os.FileInfo, err error) error {
 		if err != nil {
@@ -223,6 +224,13 @@ func (cs *ContractSet) parseFile(repo, path string) error {
 			}
 			sf.File, sf.Line = rel, l.line
 			cs.specs[pkg+"."+sf.Name] = sf
+		case "bind":
+			curF, curL = nil, nil
+			i := strings.LastIndex(rest, "=")
+			if i < 0 {
+				return fail(l, "bind needs 'external function = spec function'")
+			}
+			cs.binds[strings.TrimSpace(rest[:i])] = pkg + "." + strings.TrimSpace(rest[i+1:])
 		case "axiom":
 			curF, curL = nil, nil
 			i := strings.Index(rest, ":")
@@ -369,8 +377,8 @@ func (cs *ContractSet) parseFile(repo, path string) error {
 				return fail(l, "bad at clause")
 			}
 			spec := head[0]
-			if spec == "call" && len(head) >= 2 {
-				aa.Where = "call"
+			if (spec == "call" || spec == "store") && len(head) >= 2 {
+				aa.Where = spec
 				spec = head[1]
 			} else if strings.HasPrefix(spec, "return") {
 				aa.Where = "return"
